@@ -162,3 +162,69 @@ Fixpoint ids_distinct (v : tval) : bool :=
          match l with [] => true | (a, b) :: r => ids_distinct a && ids_distinct b && go r end) l
   | _ => true
   end.
+
+(* ---------- zero-copy accounting of the emitted encoder on a LinkedBytes transport ----------
+   what goes into nodes of its own (TBinary*OutputProtocol<&mut LinkedBytes> with zero_copy on): every string / binary
+   payload and every retained unknown-field chunk of at least ZERO_COPY_THRESHOLD bytes, along the fields the encoder
+   writes (a void-typed field writes nothing); everything else is copied.  Any other buffer flavour inserts nothing. *)
+Definition bigk (k : bk) (l : list byte) : Z :=
+  match k with
+  | BLinked true => if zero_copy_threshold <=? Z.of_nat (length l) then Z.of_nat (length l) else 0
+  | _ => 0
+  end.
+
+Fixpoint zc_total (S : schema) (k : bk) (t : ty) (v : gval) {struct v} : Z :=
+  match v with
+  | GBytes l => match resolve S t with TyString | TyBinary => bigk k l | _ => 0 end
+  | GList l =>
+      match resolve S t with
+      | TyList et => (fix go (l : list gval) : Z := match l with [] => 0 | x :: r => zc_total S k et x + go r end) l
+      | _ => 0
+      end
+  | GSet l =>
+      match resolve S t with
+      | TySet et => (fix go (l : list gval) : Z := match l with [] => 0 | x :: r => zc_total S k et x + go r end) l
+      | _ => 0
+      end
+  | GMap l =>
+      match resolve S t with
+      | TyMap kt vt =>
+          (fix go (l : list (gval * gval)) : Z :=
+             match l with [] => 0 | (a, b) :: r => zc_total S k kt a + zc_total S k vt b + go r end) l
+      | _ => 0
+      end
+  | GStruct fs unk =>
+      match resolve S t with
+      | TyRef n =>
+          match lookup S n with
+          | Some (DStruct dfs _ _) =>
+              (fix go (fs : list (Z * gval)) : Z :=
+                 match fs with
+                 | [] => 0
+                 | (id, x) :: r =>
+                     match find_field dfs id with
+                     | Some f => (if is_void (resolve S (f_ty f)) then 0 else zc_total S k (f_ty f) x) + go r
+                     | None => 0
+                     end
+                 end) fs
+              + fold_right (fun c a => bigk k c + a) 0 unk
+          | _ => 0
+          end
+      | _ => 0
+      end
+  | GUnion id x =>
+      match resolve S t with
+      | TyRef n =>
+          match lookup S n with
+          | Some (DUnion vs _ _) =>
+              match find_variant vs id with
+              | Some vt => if is_void (resolve S vt) then 0 else zc_total S k vt x
+              | None => 0
+              end
+          | _ => 0
+          end
+      | _ => 0
+      end
+  | GUnionUnknown u => bigk k u
+  | _ => 0
+  end.
